@@ -75,6 +75,7 @@ MvdBits(mvd, i) == IF i > Len(mvd) THEN <<>> ELSE CodeOf(Mvd, mvd[i][1]) \o Code
 MbBits(mb, intraPic, ver1) ==
     CASE mb.k = "stuff" -> (IF intraPic THEN <<>> ELSE <<0>>) \o CodeOf(IF intraPic THEN McbpcI ELSE McbpcP, <<-1, 0>>)
       [] mb.k = "skip"  -> <<1>>
+      [] mb.k = "raw"   -> mb.bits      \* arbitrary bits (only in inputs that are not claimed to be valid pictures)
       [] OTHER ->
            (IF intraPic THEN <<>> ELSE <<0>>)
            \o CodeOf(IF intraPic THEN McbpcI ELSE McbpcP, <<mb.t, mb.cbpc>>)
@@ -109,6 +110,7 @@ BlockOk(blk, coded, intra, ver1) ==
 MbOk(mb, intraPic, ver1) ==
     CASE mb.k = "stuff" -> TRUE
       [] mb.k = "skip" -> ~intraPic
+      [] mb.k = "raw" -> FALSE
       [] OTHER ->
            /\ mb.t \in (IF intraPic THEN {3, 4} ELSE 0..5) /\ mb.cbpc \in 0..3 /\ mb.cbpy \in 0..15
            /\ (HasDq(mb.t) => mb.dq \in {-2, -1, 1, 2}) /\ (~HasDq(mb.t) => mb.dq = 0)
